@@ -33,5 +33,12 @@ for id in C16 C18; do $E $id rename-struct-locals codescan/schema.go 's/\bafld\b
 for id in C16 C18; do $E $id rename-imports-locals codescan/application.go 's/\bknown\b/seen/g' 's/\bimportPaths\b/sorted/g'; done
 for id in C04 C07; do $E $id rename-media-locals generator/media.go 's/\bneedsDefault\b/lacking/g' 's/\bmediaFor\b/listFor/g'; done
 $E C18 rename-valueparser-locals codescan/parser.go 's/\bobj\b/object/g' 's/\bslice\b/list/g'
+# round 6: locals of the constructs the round-6 rules look at
+for id in C17 C16; do $E $id rename-paramscan-locals codescan/parameters.go 's/\bps\b/param/g' 's/\bafld\b/astField/g' 's/\bfld\b/field/g' 's/\bsb\b/builder/g'; done
+for id in C17 C16; do $E $id rename-specbuilder-locals codescan/spec.go 's/\brb\b/routes/g' 's/\bpp\b/content/g' 's/\bob\b/opsBuilder/g' 's/\bsb\b/schemas/g'; done
+for id in C12 C13 C14; do $E $id rename-reporting-locals cmd/swagger/commands/diff/reporting.go 's/\beachParam\b/p/g' 's/\bparams\b/byName/g'; done
+for id in C12 C13 C14; do $E $id rename-arraydiff-locals cmd/swagger/commands/diff/array_diff.go 's/\btoArray\b/to/g' 's/\binFrom\b/left/g' 's/\binTo\b/right/g'; done
+for id in C05 C01; do $E $id rename-structbranch-locals generator/model.go 's/\bfn\b/req/g' 's/\bcomprop\b/member/g' 's/\bemprop\b/prop/g'; done
+for id in C03 C04; do $E $id rename-responses-locals generator/templates/server/responses.gotmpl 's/\bhv\b/value/g' 's/\brw\b/w/g' 's/\bpayload\b/content/g'; done
 # re-indentation of template text (generated code is gofmt'ed: whitespace-only change)
 for spec in "C03:generator/templates/server/parameter.gotmpl" "C04:generator/templates/client/parameter.gotmpl" "C04:generator/templates/client/response.gotmpl" "C05:generator/templates/serializers/additionalpropertiesserializer.gotmpl" "C05:generator/templates/serializers/tupleserializer.gotmpl" "C06:generator/templates/server/builder.gotmpl" "C06:generator/templates/server/operation.gotmpl" "C08:generator/templates/server/builder.gotmpl" "C09:generator/templates/server/operation.gotmpl" "C01:generator/templates/server/main.gotmpl" "C02:generator/templates/schemavalidator.gotmpl"; do id=${spec%%:*}; f=${spec#*:}; n=$(basename $f .gotmpl); $E $id reindent-$n $f 's/^  \( *[^ {]\)/\t\1/' 's/^    \( *[^ {]\)/\t\t\1/' 's/ *$//'; done
